@@ -301,3 +301,24 @@ Lemma ay_result :
   fst r = FOk /\ length (af_std (snd r)) = 1%nat /\
   af_actl (snd r) = Offsets.mkfctl 1 1 3 69414030 0 425.
 Proof. vm_compute. repeat split. Qed.
+
+(* ---- flatten (flatten f) -------------------------------------------------------------------------- *)
+Lemma c12_reflatten hd sp ip ap inf inp out r' :
+  std_file inp -> inp <> [] -> i_hdr_ok inf = true ->
+  kinds_consistent inp -> Forall traces_nodup inp ->
+  Forall (fun b => Arith.validate_batch GA (f_batch GA (hp_of hd) (fp_of sp) b) = Arith.ROk) inp ->
+  Forall (hdr_pair hd) (ids inp) ->
+  i_count inf = sum_ids cnt_e inp -> i_debit inf = sum_ids (db_e GT sp) inp -> i_credit inf = sum_ids (cr_e GT sp) inp ->
+  cat_rule inp ->
+  i_debit inf <= Arith.t_file_limit GA -> i_credit inf <= Arith.t_file_limit GA ->
+  flatten_spec inp out ->
+  flatten_full_spec GA GT GTT hd sp ip ap inf out r' ->
+  (fst r' = FOk \/ (fst r' = FErrValidate /\ file_ctl_ok GA (snd r') = false))
+  /\ Offsets.fc_count (af_ctl (snd r')) = i_count inf
+  /\ Offsets.fc_debit (af_ctl (snd r')) = i_debit inf
+  /\ Offsets.fc_credit (af_ctl (snd r')) = i_credit inf
+  /\ exists all', r' = finish GA GT GTT hd sp ip ap inf all' /\ finalize all' = out
+       /\ Forall (fun x => created GA GT hd sp x /\ StronglySorted trace_lt (b_entries x)) (pre all').
+Proof.
+  intros. eapply (reflatten GA GT GTT gen_agree); eauto using c12_limits.
+Qed.
